@@ -23,6 +23,13 @@ package autodiff
 //@   ensures forall t *AvlTree, k int :: t != obj && t != nil ==> (member(t.Root, k) <==> old(member(t.Root, k)))
 //@   modifies AvlTree.Root@{obj}, AvlNode.Left, AvlNode.Right, AvlNode.Value, AvlNode.Balance, AvlNode.Parent, AvlNode.Deleted
 
+//@ func (*AvlTree).Clone
+//@   trusted
+//@   requires obj != nil
+//@   ensures fresh(result) && (forall k int :: member(result.Root, k) <==> old(member(obj.Root, k)))
+//@   ensures forall t *AvlTree, k int :: t != nil && !fresh(t) ==> (member(t.Root, k) <==> old(member(t.Root, k)))
+//@   modifies AvlNode.Left, AvlNode.Right, AvlNode.Value, AvlNode.Balance, AvlNode.Parent, AvlNode.Deleted
+
 //@ for $V,$S,$F in (SparseFloat64Vector,Float64,float64)
 //@ spec RI_$V(v *$V) bool =
 //@   v != nil && v.n >= 0 && v.values != nil &&
@@ -51,6 +58,13 @@ package autodiff
 //@   ensures has(obj.values, i) ==> result == obj.values[i]
 //@   ensures !has(obj.values, i) ==> result.ptr == nil
 //@   pure
+
+//@ func (*$V).Reset
+//@   requires RI_$V(obj)
+//@   ensures RI_$V(obj) && obj.n == old(obj.n) && (forall k int :: elem_$V(obj, k) == 0)
+//@   modifies []$F
+//@   loop 1 invariant forall k int :: visited(obj.values, k) ==> has(obj.values, k) && deref(obj.values[k].ptr) == 0
+//@   loop 1 invariant forall b int, k int :: (forall q int :: has(obj.values, q) ==> !(base(obj.values[q].ptr) == b && off(obj.values[q].ptr) == k)) ==> row($F, b)[k] == old(row($F, b)[k])
 
 //@ func (*$V).Swap
 //@   requires RI_$V(obj)
